@@ -93,6 +93,13 @@ func (h *HttpServer) handleUnary(w http.ResponseWriter, r *http.Request) {
 		}
 	}
 
+	// ReadRequest lets a zero-row pointer batch through so it can be
+	// resolved above; what is left now is what gets bound to the parameters.
+	if rowErr := validateRequestRows(req.Batch); rowErr != nil {
+		h.writeHttpError(w, http.StatusBadRequest, rowErr, nil)
+		return
+	}
+
 	var handlerErr error
 	stats := &CallStatistics{}
 
